@@ -35,6 +35,12 @@ TRUSTED = [
     "harness/epr.py: InProcConnection decodes the serialized host messages and drives the executor in-process",
 ]
 ASSUMPTIONS = [
+    "LINK-LAYER ORDER for the result half: the responses of one (remote node, socket, role) are delivered in "
+    "the order of the requests they answer; they may arrive before the matching instruction ran and "
+    "interleave arbitrarily with other sockets (the multi-call stream does both). Pair i of a completed "
+    "call = the i-th response generated for its queue after those of earlier calls",
+    "socket min_fidelity is not a call parameter: it travels in OpenEPRSocketMessage, never in the request "
+    "(minimum_fidelity = 0 in every LinkLayerCreate)",
     "expectedCreate (the specification) transmits the time unit only together with a non-zero limit "
     "(max_time = 0 means no limit in any unit) and leaves minimum_fidelity/priority/atomic/consecutive/"
     "probability distributions at the LinkLayerCreate defaults (the API has no parameter for them)",
@@ -157,6 +163,14 @@ def run(ctx):
                                                  % (f, i, v, want), "kf": None, "input": {**inp, "fields": fields}})
         if len(res.samples) < 5 and res.evaluations % 211 == 3:
             res.samples.append({"case": c, "role": role, "handles": out["handles"][:5]})
+    # ---- host programs with several calls over two sockets; responses may arrive before the matching
+    # instruction ran and the two sockets interleave (per-queue order kept): every handle of every completed
+    # call must read the i-th response the link layer generated for its (remote node, socket, role)
+    npg = 3000 if ctx.thorough else 600
+    for _ in range(npg):
+        pc = H.gen_program_case(rng)
+        res.evaluations += 1
+        _check_program(res, H, pc)
     # ---- direct streams: serialize_request and _get_create_request on wider / malformed inputs
     nd = 4000 if ctx.thorough else 800
     ex = H.fresh_world()
@@ -208,10 +222,42 @@ def run(ctx):
     return res
 
 
+def _check_program(res, H, pc):
+    out = H.run_program_case(pc)
+    inp = {"program": pc}
+    res.count("program-calls:%d" % len(pc["calls"]))
+    if pc["early"]:
+        res.count("program-early-responses")
+    if len({c["socket"] for c in pc["calls"]}) > 1:
+        res.count("program-two-sockets")
+    if out["raised"]:
+        res.failures.append({"what": "host program raised " + out["raised"], "kf": None, "input": inp})
+        return out
+    if out["stuck"]:
+        res.failures.append({"what": "a request never completed although every response of its queue was "
+                                     "delivered", "kf": None, "input": inp})
+        return out
+    res.nontrivial.add(json.dumps(pc, sort_keys=True))
+    bad = [(w, g, x) for w, g, x in out["checks"] if g != x]
+    if bad:
+        w, g, x = bad[0]
+        res.failures.append({"what": "handle reads %s, the response generated for that pair has %s (%s)"
+                                     % (g, x, w), "kf": None,
+                             "input": {**inp, "mismatches": [list(map(str, b)) for b in bad[:6]]}})
+    return out
+
+
 def replay(ctx, payload):
     from harness import epr as H
     H.quiet()
     inp = (payload.get("failure") or {}).get("input") or {}
+    if "program" in inp:
+        res = Result()
+        out = _check_program(res, H, inp["program"])
+        print("stuck:", out["stuck"], "raised:", out["raised"])
+        for f in res.failures:
+            print("FAIL:", f["what"])
+        return 1 if res.failures else 0
     if "case" not in inp:
         print("replay file names no SDK case:", json.dumps(payload)[:800])
         return 1
